@@ -174,7 +174,8 @@ def eval_block(block, acc):
         return
     elif block[0] == "long":
         L = block[1]
-        seqs = [(L,)] + [(a, L) for a in streams.LONG_NEIGHBOURS] + [(L, b) for b in streams.LONG_NEIGHBOURS]
+        # (a, L) first: the block starts from pristine state, and a frame read before L must read the same after it
+        seqs = [(a, L) for a in streams.LONG_NEIGHBOURS] + [(L, b) for b in streams.LONG_NEIGHBOURS] + [(L,)]
         for seq in seqs:
             data = streams.seq_bytes(seq)
             for cfg in CFGS[:2] if len(data) > 2000 else CFGS:
